@@ -295,12 +295,14 @@ func (c *Ctx) nativeRowsGrow() {
 	m := c.M
 	m.Case("native-rows-grow")
 	builds := map[string]func() at.List{
-		"2 rows":       func() at.List { return at.NewList(at.NewList(1, 2), at.NewList(3, "b")) },
-		"3 rows":       func() at.List { return at.NewList(at.NewList(1, 2), at.NewList(3, "b"), at.NewList(true)) },
-		"empty first":  func() at.List { return at.NewList(at.NewList(), at.NewList(1), at.NewList(2, 3)) },
+		"2 rows":        func() at.List { return at.NewList(at.NewList(1, 2), at.NewList(3, "b")) },
+		"3 rows":        func() at.List { return at.NewList(at.NewList(1, 2), at.NewList(3, "b"), at.NewList(true)) },
+		"empty first":   func() at.List { return at.NewList(at.NewList(), at.NewList(1), at.NewList(2, 3)) },
 		"rows + scalar": func() at.List { return at.NewList(at.NewList(1.5), 7, at.NewList("x", nil)) },
-		"5 rows":       func() at.List { return at.NewListOf(nil, 0).Add(at.NewList(1), at.NewList(2), at.NewList(3), at.NewList(4), at.NewList(5)) },
-		"nested rows":  func() at.List { return at.NewList(at.NewList(at.NewList(1), at.NewList(2)), at.NewList(at.NewList(3))) },
+		"5 rows": func() at.List {
+			return at.NewListOf(nil, 0).Add(at.NewList(1), at.NewList(2), at.NewList(3), at.NewList(4), at.NewList(5))
+		},
+		"nested rows": func() at.List { return at.NewList(at.NewList(at.NewList(1), at.NewList(2)), at.NewList(at.NewList(3))) },
 	}
 	for name, build := range builds {
 		l := build()
